@@ -201,7 +201,9 @@ func (a *asyncFifoRetryImpl) retry(ctx context.Context) (breakLoop bool) {
 		verb := node.event.ResourceVerb
 		prevRev := node.event.PrevRevision
 
-		// if err is still uncertain, a new event will enqueue soon
+		// the dispatcher resolves the revision allocated for this attempt, whatever its outcome.
+		// if err is still uncertain, a new event for that revision will enqueue soon: it covers the case that
+		// this rewrite did land after all
 		a.dispatcher(ctx, node.event.Key, val, rev, prevRev, err == nil, verb, err)
 		if err != nil {
 			klog.ErrorS(err, "failed to retry",
@@ -211,6 +213,13 @@ func (a *asyncFifoRetryImpl) retry(ctx context.Context) (breakLoop bool) {
 			state = retryFailedPut
 			if errors.Is(err, storage.ErrUncertainResult) {
 				state = retryUnknownPut
+			}
+			if !errors.Is(err, storage.ErrCASFailed) {
+				// the rewrite is not known to have lost against a newer write of the key, so the operation
+				// this node stands for may still be the latest one and still unannounced: keep the node
+				// (it also keeps the compaction cap below its revision) and try again in next tick.
+				// only a failed compare proves that the key has moved on and the node can be dropped
+				return true
 			}
 		}
 	}
